@@ -156,6 +156,7 @@ type aggsSpec struct {
 	dfield int
 	dates  [][2]*int64
 	subs   []aggsNamed
+	nested bool // a sketch metric inside a bucket aggregation: only its estimate is observable
 }
 
 type aggsNamed struct {
@@ -334,9 +335,15 @@ func (a *aggsSpec) build() aggsBuilt {
 	case "wavg":
 		return aggsBuilt{agg: aggregations.WeightedAvg(a.ns.build(), a.weight.build())}
 	case "card":
+		if a.nested {
+			return aggsBuilt{agg: aggregations.Cardinality(a.vs.build())}
+		}
 		log := &[][]byte{}
 		return aggsBuilt{agg: aggregations.Cardinality(&aggsRecText{inner: a.vs.build(), log: log}), textLog: log}
 	case "quant":
+		if a.nested {
+			return aggsBuilt{agg: aggregations.Quantiles(a.ns.build())}
+		}
 		log := &[]float64{}
 		return aggsBuilt{agg: aggregations.Quantiles(&aggsRecNum{inner: a.ns.build(), log: log}), numLog: log}
 	case "terms":
@@ -398,12 +405,20 @@ func aggsRead(a *aggsSpec, c search.Calculator, built aggsBuilt) aggsObs {
 	o := aggsObs{calc: c}
 	switch a.kind {
 	case "card":
+		o.value = c.(search.MetricCalculator).Value()
+		if a.nested {
+			o.coq = "OSketch"
+			break
+		}
 		if built.textLog != nil {
 			o.fedT = *built.textLog
 		}
 		o.coq = fmt.Sprintf("(OFedT %s)", cq.BytesList(o.fedT))
-		o.value = c.(search.MetricCalculator).Value()
 	case "quant":
+		if a.nested {
+			o.coq = "OSketch"
+			break
+		}
 		if built.numLog != nil {
 			o.fedN = *built.numLog
 		}
@@ -670,7 +685,11 @@ func aggsGenVSrc(rng *rand.Rand) *aggsVSrc {
 }
 
 func aggsGenMetric(rng *rand.Rand) *aggsSpec {
-	switch rng.Intn(8) {
+	switch rng.Intn(11) {
+	case 8, 9:
+		return &aggsSpec{kind: "card", vs: aggsGenVSrc(rng), nested: true}
+	case 10:
+		return &aggsSpec{kind: "quant", ns: aggsGenNSrc(rng, 1), nested: true}
 	case 0:
 		return &aggsSpec{kind: "sum", ns: aggsGenNSrc(rng, 1)}
 	case 1:
@@ -789,6 +808,48 @@ func aggsRun(tree []aggsNamed, f func(aggs search.Aggregations) (*search.Bucket,
 	}
 	res.coq = cq.Some(cq.List(it))
 	return res
+}
+
+// aggsReuseProbe: ONE set of aggregation objects serves two searches over different match sets
+// (an application keeps its aggregation definitions around); the second search must report exactly
+// the second match set's aggregations.
+func aggsReuseProbe(w *cq.Writer, tree []aggsNamed, first, second func(aggs search.Aggregations) (*search.Bucket, error),
+	secondDocs []*aggsDoc, input func() map[string]interface{}) {
+	defer func() {
+		if r := recover(); r != nil {
+			w.OracleEval(1)
+			in := input()
+			in["panic"] = fmt.Sprint(r)
+			w.OracleFail("C16-panic", "search with reused aggregation objects panicked", in)
+		}
+	}()
+	aggs := search.Aggregations{}
+	built := make([]aggsBuilt, len(tree))
+	for i, a := range tree {
+		built[i] = a.agg.build()
+		aggs.Add(aggsName(a.id), built[i].agg)
+	}
+	if _, err := first(aggs); err != nil {
+		panic(err)
+	}
+	b, err := second(aggs)
+	if err != nil {
+		panic(err)
+	}
+	w.Count("reuse:probes", 1)
+	for i, a := range tree {
+		o := aggsRead(a.agg, b.Aggregations()[aggsName(a.id)], built[i])
+		failed := false
+		aggsOracle(w, aggsName(a.id), a.agg, o, secondDocs, func(key, why string) {
+			if failed {
+				return
+			}
+			failed = true
+			in := input()
+			in["setting"] = "aggregation objects reused: second of two searches over different match sets"
+			w.OracleFail(key, why, in)
+		})
+	}
 }
 
 func aggsScoreArithmetic(t []aggsNamed) bool {
@@ -972,6 +1033,25 @@ func runAggs(o Opts) error {
 					w.OracleFail(key, why, map[string]interface{}{"aggs": aggsTreeString(tree), "order": topnOrderString(order), "setting": label, "hits": describe()})
 				})
 			}
+		}
+		// the same aggregation objects for a search over all hits, then over every second hit
+		if n >= 2 {
+			var sub []*topnStubDoc
+			var subDocs []*aggsDoc
+			for i := 0; i < n; i += 2 {
+				sub = append(sub, docs[i])
+				subDocs = append(subDocs, adocs[i])
+			}
+			aggsReuseProbe(w, tree, settings[0].run,
+				func(aggs search.Aggregations) (*search.Bucket, error) {
+					_, b, panicked, perr := topnRunDirect(sub, mkOrder(), 3, 0, nil, false, aggs)
+					if panicked {
+						return nil, fmt.Errorf("panic: %v", perr)
+					}
+					return b, nil
+				}, subDocs, func() map[string]interface{} {
+					return map[string]interface{}{"aggs": aggsTreeString(tree), "order": topnOrderString(order), "first_search_hits": describe(), "second_search": "every second hit of the first"}
+				})
 		}
 		hs := make([]string, n)
 		for i, d := range docs {
@@ -1204,6 +1284,13 @@ func aggsEndToEnd(rng *rand.Rand, w *cq.Writer, ii int) error {
 				})
 			}
 		}
+		// the same aggregation objects for the other query first, then for this one
+		aggsReuseProbe(w, tree, searchAggs(bluge.NewAllMatches(mkQuery(1-qk))),
+			searchAggs(bluge.NewTopNSearch(2, mkQuery(qk)).SortByCustom(mkOrder())), adocs,
+			func() map[string]interface{} {
+				return map[string]interface{}{"aggs": aggsTreeString(tree), "order": topnOrderString(order), "index": ii,
+					"first_query": 1 - qk, "second_query": qk, "second_matches": describe()}
+			})
 		w.Count("e2e:matches", n)
 		w.Add(fmt.Sprintf("CAggs %s %s %s\n %s", aggsCoqSubs(tree), topnCoqOrder(order), cq.List(hs), cq.List(runs)), "e2e", n > 0,
 			map[string]interface{}{"index": ii, "docs": nd, "query": qk, "matches": n, "aggs": aggsTreeString(tree), "order": topnOrderString(order), "settings": rmeta})
